@@ -76,9 +76,29 @@ pub fn generate(rng: &mut Rng) -> NetScenario {
         }
         clients.push(NetClient { connect_at_ns: t, peer, spec, wplan: vec![] });
     }
+    // one player dawdles: it answers the Encryption Request only just before its deadline (10 s), so the deadline strikes
+    // while the authentication service is being asked about it; somebody else logs in right after that
+    let mut timeout_ns = secs(120);
+    let mut services = services;
+    if rng.chance(1, 6) && clients.len() >= 2 {
+        timeout_ns = secs(10);
+        services.auth.default.lat_ns = Some(ms(500));
+        // (everybody else is through long before their own deadline)
+        for l in [&mut services.discovery.default.lat_ns, &mut services.filter.default.lat_ns, &mut services.strategy.default.lat_ns] {
+            *l = Some(l.unwrap_or(0).min(ms(300)));
+        }
+        let c0 = &mut clients[0];
+        c0.connect_at_ns = 0;
+        c0.spec.auth_cookie = None;
+        c0.spec.login_think_ns = vec![0, secs(10) - ms(300)];
+        let last = clients.len() - 1;
+        clients[last].connect_at_ns = secs(10) + ms(rng.range(0, 400));
+        clients[last].spec.auth_cookie = None;
+        clients.sort_by_key(|c| c.connect_at_ns);
+    }
     NetScenario {
         seed: rng.next_u64(),
-        cfg: NetCfg { secret, expiry: None, max_frame: None, timeout_ns: secs(120), proxy, limiter: None, use_start: false, agones: false, secret_source: None, localization_from_services: false },
+        cfg: NetCfg { secret, expiry: None, max_frame: None, timeout_ns, proxy, limiter: None, use_start: false, agones: false, secret_source: None, localization_from_services: false },
         wall,
         services,
         clients,
@@ -96,7 +116,7 @@ pub fn domain_ok(sc: &NetScenario) -> bool {
         && !sc.cfg.use_start
         && sc.cfg.limiter.is_none()
         && sc.stop_at_ns.is_none()
-        && sc.cfg.timeout_ns >= secs(120)
+        && (sc.cfg.timeout_ns >= secs(120) || sc.cfg.timeout_ns == secs(10))
         && sc.cap_ns >= secs(200)
         && matches!(s.auth.default.res, AuthRes::Derived)
         && matches!(s.discovery.default.res, DiscRes::PerCall { n } if n >= 1)
@@ -121,7 +141,7 @@ pub fn domain_ok(sc: &NetScenario) -> bool {
                 && p.close_after.is_none()
                 && p.extras.is_empty()
                 && p.flood.is_none()
-                && p.login_think_ns.is_empty()
+                && (p.login_think_ns.is_empty() || (sc.cfg.timeout_ns == secs(10) && c.connect_at_ns == 0 && p.login_think_ns == vec![0, secs(10) - ms(300)] && p.auth_cookie.is_none() && sc.clients.iter().filter(|o| !o.spec.login_think_ns.is_empty()).count() == 1))
                 && p.ka.is_empty()
                 && matches!(p.ka_default, crate::client::KaPolicy::Prompt)
                 && matches!(p.enc, crate::client::EncVariant::Honest)
@@ -196,6 +216,9 @@ pub fn check_isolation(sc: &NetScenario, out: &NetOutcome, rep: &mut RunReport, 
         let my_filter: Vec<&Value> = filt_calls.iter().filter(|e| e.detail["name"].as_str() == Some(&expect.name) && e.detail["uuid"].as_str() == Some(&eu)).map(|e| &e.detail).collect();
         let my_strat: Vec<&Value> = strat_calls.iter().filter(|e| e.detail["name"].as_str() == Some(&expect.name) && e.detail["uuid"].as_str() == Some(&eu)).map(|e| &e.detail).collect();
         let transfer = c.view.first("Transfer");
+        if !spec.spec.login_think_ns.is_empty() {
+            continue; // the dawdler is cut off by its deadline; what it was told so far has been judged above
+        }
         if routing {
             if transfer.is_none() {
                 rep.violate("every_player_is_routed", format!("connection {i} ({}) got no Transfer: packets {:?}, server closed at {:?}", expect.name, c.view.kinds(), c.closed_ns));
